@@ -47,7 +47,7 @@ func slotEntry(slot string, id interface{}) map[string]interface{} {
 
 // TestRuleBoundaries sweeps every structural rule of the statement one deviation at a time, deterministically.
 func TestRuleBoundaries(t *testing.T) {
-	ev.Rule(chkSweep, "deterministic sweep, one deviation per case, in each of the four entry slots (add-public-keys, add-services, replace document keys / services): (a) id = 'k', 'k'+c, c+'k', 'k'+c+'k' for every 7-bit character c and 12 non-ASCII ones; (b) id of every length 0..52; (c) service type of every length 0..32; (d) every key type x every single purpose and every pair of purposes; (e) every subset of the key-material members publicKeyJwk / publicKeyBase58; (f) two entries with equal ids at every pair of positions of a 3-entry list; oracle: ValidateDelta accepts => the independent rule predicate finds no violated rule, and the unaltered base entry must be accepted (the sweep is not vacuous); accepted deltas are also applied; non-trivial = every case")
+	ev.Rule(chkSweep, "deterministic sweep, one deviation per case, in each of the four entry slots (add-public-keys, add-services, replace document keys / services): (a) id = 'k', 'k'+c, c+'k', 'k'+c+'k' for every 7-bit character c and 12 non-ASCII ones; (b) id of every length 0..52; (c) service type of every length 0..32; (d) every key type x every single purpose and every pair of purposes; (e) every subset of the key-material members publicKeyJwk / publicKeyBase58; (f) two entries with equal ids at every pair of positions of a 3-entry list, for keys also with each entry in turn given as a base58 key of another type; oracle: ValidateDelta accepts => the independent rule predicate finds no violated rule, and the unaltered base entry must be accepted (the sweep is not vacuous); accepted deltas are also applied; non-trivial = every case")
 	item := 0
 	probe := func(cls string, c *Case) bool {
 		item++
@@ -108,6 +108,27 @@ func TestRuleBoundaries(t *testing.T) {
 					p["document"] = map[string]interface{}{"services": l}
 				}
 				probe("duplicate-id", one(p))
+				// ... and, for keys, with every entry of the list in turn given as a base58 key of another type (the
+				// duplicate test must not depend on the form of the key material of either entry)
+				if strings.HasSuffix(slot, "eys") {
+					for b := 0; b < 3; b++ {
+						var lb []interface{}
+						for n, id := range ids {
+							e := slotEntry(slot, id)
+							if n == b {
+								delete(e, "publicKeyJwk")
+								e["type"] = "Ed25519VerificationKey2018"
+								e["publicKeyBase58"] = "GY4GunSXBPBfhLCzDL7iGmP5dR3sBDCJZkkaGK8VgYQf"
+							}
+							lb = append(lb, e)
+						}
+						pb := map[string]interface{}{"action": "add-public-keys", "publicKeys": lb}
+						if slot == "replace/publicKeys" {
+							pb = map[string]interface{}{"action": "replace", "document": map[string]interface{}{"publicKeys": lb}}
+						}
+						probe("duplicate-id-mixed-key-forms", one(pb))
+					}
+				}
 			}
 		}
 	}
